@@ -21,7 +21,9 @@ def phase_covariance(r, r0, L0):
         L0 (float): Outer scale of turbulence in metres
     """
     # Make sure everything is a float to avoid nasty surprises in division!
-    r = numpy.float32(r)
+    # (double precision: separations rounded to single precision make the
+    # covariance matrices of finely sampled screens numerically indefinite)
+    r = numpy.asarray(r, dtype=numpy.float64)
     r0 = float(r0)
     L0 = float(L0)
 
